@@ -1504,13 +1504,24 @@ flip_reinforce = distribution(
     flip.logpdf,
 )
 
+# `geometric` takes logits as its positional parameter (TFP's Geometric),
+# whereas this estimator - like `flip_reinforce` and its keyful sampler above -
+# is parameterised by the success probability.
+def _geometric_probs_sample(probs):
+    return geometric.sample(probs=probs)
+
+
+def _geometric_probs_logpdf(v, probs):
+    return geometric.logpdf(v, probs=probs)
+
+
 geometric_reinforce = distribution(
     reinforce(
-        geometric.sample,
-        geometric.logpdf,
+        _geometric_probs_sample,
+        _geometric_probs_logpdf,
         _geometric_keyful_sample,
     ),
-    geometric.logpdf,
+    _geometric_probs_logpdf,
 )
 
 normal_reinforce = distribution(
